@@ -326,6 +326,12 @@ func runSession(prop, tier string, r *rng) {
 			e.sessionCase(prop, 3, 3+1+amount, chunk, []sessPeer{{have: 120}}, 1500)
 			e.sessionCase(prop, 3, 3+1+amount, chunk, []sessPeer{{have: int(3 + amount/2)}, {have: 120}}, 1500)
 		}
+		// two calls on ONE client: in the first, peer 0 answers fast and then fails once (a second capable peer completes the
+		// call); in the second, peer 0 is the only one holding the range, is perfectly healthy, and three lagging peers answer
+		// NOT_FOUND. What the first call did to peer 0's score must not starve it.
+		if chunk <= 3 {
+			e.twoCallCase(prop, chunk)
+		}
 		// the stream dies after part of a chunk went out: the remainder of that chunk must be asked for again
 		if chunk >= 3 && chunk <= 8 {
 			e.sessionCase(prop, 3, 3+1+2*chunk, chunk, []sessPeer{{have: 120, behs: []string{"partialreset:2"}}, {have: 120}}, 1500)
@@ -379,4 +385,70 @@ func runSession(prop, tier string, r *rng) {
 		}
 		e.sessionCase(prop, from, from+1+amount, chunk, ps, 2500)
 	}
+}
+
+func (e *p2pEnv) twoCallCase(prop string, chunk uint64) {
+	ps1 := []sessPeer{{have: 120, behs: []string{"honest", "notfound"}}, {have: 20}, {have: 20}, {have: 20}}
+	n := len(ps1)
+	ids := make([]peer.ID, n)
+	script := func(ps []sessPeer) {
+		for i := 0; i < n; i++ {
+			p := ps[i]
+			e.peers[i].Reset(false, func(k int, req *p2p_pb.HeaderRequest) peers.Reply {
+				b := "honest"
+				if k < len(p.behs) {
+					b = p.behs[k]
+				}
+				return e.rangeReply(b, req.GetOrigin(), req.Amount, p.have)
+			})
+			ids[i] = e.hosts[i+1].ID()
+		}
+	}
+	script(ps1)
+	ex := e.client(nil, chunk, 120*time.Millisecond)
+	defer ex.Stop(context.Background()) //nolint:errcheck
+	ex.VerifSetTrackedPeers(ids...)
+	ctx1, cancel1 := context.WithTimeout(context.Background(), 2*time.Second)
+	_, err1 := ex.GetRangeByHeight(ctx1, e.chain[2], 3+1+3*chunk) // within what everybody holds
+	cancel1()
+	// what doRequest books when a peer on a fast link answers within a millisecond and later answers NOT_FOUND once
+	// (mocknet round trips are slower than that, so the two bookings are made through the hook, by the real functions)
+	ex.VerifRecordOutcome(ids[0], 500, 300*time.Microsecond)
+	ex.VerifRecordOutcome(ids[0], -1, 0)
+	// second call(s): heights only peer 0 holds; nobody misbehaves
+	script([]sessPeer{{have: 120}, {have: 20}, {have: 20}, {have: 20}})
+	from, to := uint64(30), 30+1+2*chunk
+	var hs []*vhdr.Header
+	var err2 error
+	for rep := 0; rep < 25; rep++ {
+		ctx2, cancel2 := context.WithTimeout(context.Background(), 800*time.Millisecond)
+		hs, err2 = ex.GetRangeByHeight(ctx2, e.chain[from-1], to)
+		cancel2()
+		if err2 != nil {
+			break
+		}
+	}
+	for i := 0; i < n; i++ {
+		e.peers[i].Reset(false, nil)
+	}
+	r := "-"
+	if hs != nil {
+		var xs []string
+		for _, h := range hs {
+			tag := utoa(h.H)
+			if int(h.H) > len(e.chain) || !sameHeader(h, e.chain[h.H-1]) {
+				tag = "X" + tag
+			}
+			xs = append(xs, tag)
+		}
+		r = strings.Join(xs, ",")
+	}
+	ec := "nil"
+	if err2 != nil {
+		ec = "err"
+		if errors.Is(err2, context.DeadlineExceeded) {
+			ec = "ctx"
+		}
+	}
+	emit("%s kind=twocalls from=%d to=%d chunk=%d first=%s => res=%s err=%s", prop, from, to, chunk, errs(err1), r, ec)
 }
